@@ -20,13 +20,15 @@ Status.
   mirror are immutable); tied by the suite's re-read of every frozen version after every op.
 -/
 import Gsu.Proofs.Chain
+import Gsu.Proofs.ChainRead
+import Gsu.Proofs.MetaProto
 import Gsu.Proofs.HamtGen
 namespace Gsu.Props.C15
 open Gsu.Hamt
 
 /-- chain states reachable by the operations `db19/meta` performs: `Put` of an item stamped with
 the current clock (live or tombstone), `Delete` without tombstone of a key that is on no linked
-chunk, `WriteChain` merging any number `merge ≤ no` of chunks -/
+chunk, `WriteChain` merging any number `merge ≤ no` of chunks, and reopening from the chain on disk -/
 inductive Reach {M : Type} (ops : MapOps M) : Chain M → Prop
   | init : Reach ops { ht := ops.empty, chunks := [], clock := 0 }
   | put (c : Chain M) (k v : Nat) (tomb : Bool) :
@@ -35,6 +37,8 @@ inductive Reach {M : Type} (ops : MapOps M) : Chain M → Prop
       Reach ops c → lookupD c.chunks k = none → Reach ops { c with ht := ops.del c.ht k }
   | write (c : Chain M) (merge id : Nat) :
       Reach ops c → merge ≤ c.chunks.length → Reach ops (writeChainWith ops c merge id).2
+  | reopen (c rc : Chain M) :
+      Reach ops c → readChain ops c.chunks = some rc → Reach ops rc
 
 /-- the chain invariant (DESIGN A.5) holds in every reachable state -/
 theorem chain_inv {M : Type} {ops : MapOps M} {ok : M → Prop} (L : MapLaws ops ok)
@@ -44,6 +48,7 @@ theorem chain_inv {M : Type} {ops : MapOps M} {ok : M → Prop} (L : MapLaws ops
   | put c k v tomb _ ih => exact put_inv L ih ⟨k, v, tomb, c.clock⟩ rfl
   | del c k _ hk ih => exact del_inv L ih k hk
   | write c merge id _ hm ih => exact write_inv L ih merge id hm
+  | reopen c rc _ hread _ => exact read_inv L c.chunks rc hread
 
 /-- **chain_roundtrip**: in every reachable state, after `WriteChain` with ANY number of merged
 chunks (so independently of `nmerge`), `ReadChain` of the written chain yields exactly the live
@@ -51,12 +56,8 @@ entries of the in-memory table: same keys, same values, tombstoned and deleted k
 theorem chain_roundtrip {M : Type} {ops : MapOps M} {ok : M → Prop} (L : MapLaws ops ok)
     {c : Chain M} (hr : Reach ops c) (merge id : Nat) (hm : merge ≤ c.chunks.length)
     (rc : Chain M) (hread : readChain ops (writeChainWith ops c merge id).2.chunks = some rc) :
-    ∀ k, live (ops.get rc.ht k) = live (ops.get c.ht k) := by
-  intro k
-  have hag := write_agree L (chain_inv L hr) merge id hm k
-  have hht : (writeChainWith ops c merge id).2.ht = c.ht := by
-    rcases write_cases (ops := ops) c merge id with ⟨_, _, h⟩ | ⟨_, _, h⟩ | ⟨_, h⟩ <;> rw [h]
-  rw [(read_lookup L _ rc hread).2 k, hag, hht]
+    ∀ k, live (ops.get rc.ht k) = live (ops.get c.ht k) :=
+  roundtrip_of_inv L (chain_inv L hr) merge id hm rc hread
 
 /-- the same for the code's own schedule `merge = nmerge(no, clock)` (regenerated definition) -/
 theorem chain_roundtrip_nmerge {M : Type} {ops : MapOps M} {ok : M → Prop} (L : MapLaws ops ok)
@@ -87,6 +88,61 @@ theorem absent_not_on_disk {M : Type} {ops : MapOps M} {ok : M → Prop} (L : Ma
     {c : Chain M} (hr : Reach ops c) (k : Nat) (hg : ops.get c.ht k = none) :
     lookupD c.chunks k = none :=
   (chain_inv L hr).absent k hg
+
+
+/-! ### db19/meta level: the `created` protocol (PutNew / alter / RenameTable / Drop / persist / reopen)
+
+The chain theorems above need two things from `db19/meta`: every item it puts is stamped with the
+clock OF THAT CHAIN (`Reach.put`; seeded change C15-2 breaks it), and an entry is deleted without a
+tombstone only when its key is on no linked chunk (`Reach.del`).  The second is what the `created`
+field is for; `Gsu.Model.MetaProto` mirrors the protocol (with fixes 12 and 45) and the theorems
+below discharge it for every history, including sessions reopened from disk (clock 0, created 0:
+the guard `created != 0` that seeded change C15-3 removes). -/
+
+/-- states reachable by meta operations on one chain -/
+inductive MReach {M : Type} (ops : MapOps M) : MState M → Prop
+  | init : MReach ops { c := { ht := ops.empty, chunks := [], clock := 0 }, created := fun _ => 0 }
+  | putNew (s : MState M) (k v : Nat) : MReach ops s → MReach ops (mPutNew ops s k v)
+  | alter (s : MState M) (k v : Nat) : MReach ops s → MReach ops (mAlter ops s k v)
+  | rename (s : MState M) (frm to v : Nat) : MReach ops s → MReach ops (mRename ops s frm to v)
+  | drop (s : MState M) (k : Nat) : MReach ops s → MReach ops (mDrop ops s k)
+  | write (s : MState M) (merge id : Nat) :
+      MReach ops s → merge ≤ s.c.chunks.length → MReach ops (mWrite ops s merge id)
+  | reopen (s : MState M) (rc : Chain M) :
+      MReach ops s → readChain ops s.c.chunks = some rc →
+      MReach ops { c := rc, created := fun _ => 0 }
+
+/-- **the `created` protocol is sound**: in every reachable meta state the chain invariant holds and
+an entry whose `created` is non-zero and equals the clock is on no linked chunk -/
+theorem meta_inv {M : Type} {ops : MapOps M} {ok : M → Prop} (L : MapLaws ops ok)
+    {s : MState M} (hr : MReach ops s) : MInv ops ok s := by
+  induction hr with
+  | init => exact mInit_inv L
+  | putNew s k v _ ih => exact mPutNew_inv L ih k v
+  | alter s k v _ ih => exact mAlter_inv L ih k v
+  | rename s frm to v _ ih => exact mRename_inv L ih frm to v
+  | drop s k _ ih => exact mDrop_inv L ih k
+  | write s merge id _ hm ih => exact mWrite_inv L ih merge id hm
+  | reopen s rc _ hread _ => exact mReopen_inv L s.c.chunks rc hread
+
+/-- a Drop that deletes without tombstone only ever removes a key that is on no linked chunk -/
+theorem meta_drop_sound {M : Type} {ops : MapOps M} {ok : M → Prop} (L : MapLaws ops ok)
+    {s : MState M} (hr : MReach ops s) (k : Nat)
+    (hdel : s.created k ≠ 0 ∧ s.created k = s.c.clock) : lookupD s.c.chunks k = none :=
+  (meta_inv L hr).crNew k hdel.1 hdel.2
+
+/-- **meta_roundtrip**: after any history of meta operations, persists and reopens, a persist (any
+merge schedule) followed by ReadChain yields exactly the live entries of the in-memory table -/
+theorem meta_roundtrip {M : Type} {ops : MapOps M} {ok : M → Prop} (L : MapLaws ops ok)
+    {s : MState M} (hr : MReach ops s) (merge id : Nat) (hm : merge ≤ s.c.chunks.length)
+    (rc : Chain M) (hread : readChain ops (mWrite ops s merge id).c.chunks = some rc) :
+    ∀ k, live (ops.get rc.ht k) = live (ops.get s.c.ht k) :=
+  roundtrip_of_inv L (meta_inv L hr).ch merge id hm rc hread
+
+/-- non-vacuity: create 3, persist, drop 3 is a reachable meta history -/
+example : MReach (trieOps id) (mDrop (trieOps id) (mWrite (trieOps id) (mPutNew (trieOps id)
+    { c := { ht := .nil, chunks := [], clock := 0 }, created := fun _ => 0 } 3 7) 0 1) 3) :=
+  MReach.drop _ 3 (MReach.write _ 0 1 (MReach.putNew _ 3 7 MReach.init) (Nat.le_refl 0))
 
 /-- (G) **nmerge_bounds**, about the regenerated `nmerge`/`maxChain`: never more than the chain
 has, and everything (a flatten) once the chain has `maxChain` chunks -/
